@@ -1324,12 +1324,17 @@ func convertDateFormat(format string) string {
 		"s": "05", // Seconds with leading zeros
 	}
 
-	result := format
-	for phpFormat, goFormat := range replacements {
-		result = strings.ReplaceAll(result, phpFormat, goFormat)
+	// Translate each format letter exactly once, left to right
+	var result strings.Builder
+	for i := 0; i < len(format); i++ {
+		if goFormat, ok := replacements[format[i:i+1]]; ok {
+			result.WriteString(goFormat)
+		} else {
+			result.WriteByte(format[i])
+		}
 	}
 
-	return result
+	return result.String()
 }
 
 // Additional filter implementations
@@ -1384,10 +1389,15 @@ func (e *CoreExtension) filterFirst(value interface{}, args ...interface{}) (int
 		}
 		return nil, nil
 	case map[string]interface{}:
-		for _, val := range v {
-			return val, nil // Return first value found
+		if len(v) == 0 {
+			return nil, nil
 		}
-		return nil, nil
+		keys := make([]string, 0, len(v))
+		for k := range v {
+			keys = append(keys, k)
+		}
+		sort.Strings(keys)
+		return v[keys[0]], nil
 	}
 
 	// Try reflection for other types
@@ -1405,10 +1415,12 @@ func (e *CoreExtension) filterFirst(value interface{}, args ...interface{}) (int
 		}
 		return nil, nil
 	case reflect.Map:
-		for _, key := range rv.MapKeys() {
-			return rv.MapIndex(key).Interface(), nil // Return first value found
+		keys := rv.MapKeys()
+		if len(keys) == 0 {
+			return nil, nil
 		}
-		return nil, nil
+		sortReflectKeys(keys)
+		return rv.MapIndex(keys[0]).Interface(), nil
 	}
 
 	return nil, fmt.Errorf("cannot get first element of %T", value)
@@ -1695,7 +1707,9 @@ func (e *CoreExtension) filterKeys(value interface{}, args ...interface{}) (inte
 	if rv.Kind() == reflect.Map {
 		// For maps, return the keys as a slice of the same type as the keys
 		keys := make([]interface{}, 0, rv.Len())
-		for _, key := range rv.MapKeys() {
+		mapKeys := rv.MapKeys()
+		sortReflectKeys(mapKeys)
+		for _, key := range mapKeys {
 			if key.CanInterface() {
 				keys = append(keys, key.Interface())
 			}
